@@ -16,14 +16,14 @@ import (
 )
 
 type SolveResult struct {
-	Status   string  `json:"status"` // unsat, sat, unknown, timeout, error
-	Solver   string  `json:"solver"`
-	Seconds  float64 `json:"seconds"`
-	Model    string  `json:"model,omitempty"`
-	Output   string  `json:"output,omitempty"`
-	CacheHit bool    `json:"cache_hit,omitempty"`
+	Status   string   `json:"status"` // unsat, sat, unknown, timeout, error
+	Solver   string   `json:"solver"`
+	Seconds  float64  `json:"seconds"`
+	Model    string   `json:"model,omitempty"`
+	Output   string   `json:"output,omitempty"`
+	CacheHit bool     `json:"cache_hit,omitempty"`
 	Tried    []string `json:"tried,omitempty"`
-	File     string  `json:"file,omitempty"`
+	File     string   `json:"file,omitempty"`
 }
 
 type Solver struct {
@@ -108,6 +108,19 @@ func solveOne(o *Obligation, prelude string, opts SolveOpts) *SolveResult {
 				return res
 			}
 		}
+	}
+	if o.MustFail {
+		// cover / vacuity probe: only "unsat" is bad news; a short single-solver attempt suffices
+		t := opts.TimeoutS
+		if t > 3 {
+			t = 3
+		}
+		st, out, secs := runSolver(solvers[0], file, t)
+		res.Status, res.Solver, res.Seconds = st, solvers[0].Name, secs
+		if st == "error" {
+			res.Output = out
+		}
+		return res
 	}
 	// stage 1: z3-new alone; stage 2: the other two in parallel
 	total := 0.0
